@@ -18,7 +18,8 @@ Inductive sexpr :=
 | SField (t i : nat)         (* fwm.<Tag>.<path of element i>  (derefs the tag pointer) *)
 | SMarker (t : nat)          (* the unexported marker field *)
 | SCat (a b : sexpr)
-| STrim (a : sexpr).
+| STrim (a : sexpr)
+| STrimByte (c : byte) (a : sexpr).   (* strings.Trim(a, "c") for a one-byte cutset *)
 
 Inductive bexpr :=
 | BTrue | BFalse
@@ -28,6 +29,7 @@ Inductive bexpr :=
 | BAnd (a b : bexpr)                   (* short-circuit *)
 | BOr (a b : bexpr)
 | BIn (a : sexpr) (l : list bytes)     (* table.Contains(a) / slices.Contains(l, a) / switch case list *)
+| BLenGt (a : sexpr) (n : N)           (* len(a) > n *)
 | BPrimErr (name : string) (a : sexpr) (* v.<name>(a) != nil *)
 | BOptsNil                             (* fwm.ValidateOptions == nil *)
 | BOptSkipIMAD                         (* fwm.ValidateOptions.SkipMandatoryIMAD (derefs) *)
@@ -55,6 +57,7 @@ Fixpoint eval_s (m : message) (e : sexpr) : option bytes :=
   | SMarker t => match get_tag m t with Some v => Some (tv_marker v) | None => None end
   | SCat a b => match eval_s m a, eval_s m b with Some x, Some y => Some (x ++ y) | _, _ => None end
   | STrim a => option_map trim_space (eval_s m a)
+  | STrimByte c a => option_map (trim_byte c) (eval_s m a)
   end.
 
 Definition require_ss (m : message) : bool :=
@@ -71,6 +74,7 @@ Fixpoint eval_b (m : message) (e : bexpr) : option bool :=
   | BAnd a b => match eval_b m a with Some true => eval_b m b | r => r end
   | BOr a b => match eval_b m a with Some false => eval_b m b | r => r end
   | BIn a l => option_map (fun x => mem_bytes x l) (eval_s m a)
+  | BLenGt a n => option_map (fun x => (n <? N.of_nat (length x))%N) (eval_s m a)
   | BPrimErr name a =>
       option_map (fun x => match run_validator name [x] with None => false | Some _ => true end) (eval_s m a)
   | BOptsNil => Some (match m_opts m with None => true | Some _ => false end)
